@@ -288,6 +288,128 @@ func c19SharedDump(rp *runner.Report) {
 	fmt.Printf("  shared dump: %d x %d histories, %d merge orders each: %d merged executions\n", len(h1), len(h2), len(ms), execs)
 }
 
+// c19OpenQueries: two worlds with queries (plain, registered and batch-result queries) open at the same time.
+func c19OpenQueries(rp *runner.Report) {
+	cfg := &sim.LockCfg{ID: "c19-open-queries", Q: 2}
+	allowed := map[uint8]bool{sim.LkOpen: true, sim.LkOpenBatch: true, sim.LkNext: true, sim.LkStep: true, sim.LkCount: true, sim.LkEntityAt: true, sim.LkClose: true}
+	type hist struct {
+		ops []wx.Op
+		key string
+	}
+	length := 4
+	hs := []hist{}
+	var rec func(prefix []wx.Op)
+	rec = func(prefix []wx.Op) {
+		r := cfg.New()
+		for _, o := range prefix {
+			if x := r.Apply(o); x.Fail != nil {
+				return
+			}
+		}
+		if len(prefix) == length {
+			hs = append(hs, hist{append([]wx.Op{}, prefix...), string(r.Key(nil))})
+			return
+		}
+		for _, o := range r.Enabled() {
+			if !allowed[o.K] || (o.K == sim.LkOpen && o.A > 1) || (o.K == sim.LkStep && o.B != 2) || (o.K == sim.LkEntityAt && o.B != 0) {
+				continue
+			}
+			// only histories that involve a batch-result query are interesting here
+			rec(append(append([]wx.Op{}, prefix...), o))
+		}
+	}
+	rec(nil)
+	withBatch := hs[:0]
+	for _, h := range hs {
+		for _, o := range h.ops {
+			if o.K == sim.LkOpenBatch {
+				withBatch = append(withBatch, h)
+				break
+			}
+		}
+	}
+	hs = withBatch
+	lim := pick(rp.Tier, 120, 400)
+	total := len(hs)
+	if len(hs) > lim {
+		thin := []hist{}
+		for i := 0; i < lim; i++ {
+			thin = append(thin, hs[i*len(hs)/lim])
+		}
+		hs = thin
+		rp.Exhaustive = false
+	}
+	ms := merges(length, length)
+	var execs int64
+	var next int64 = -1
+	var mu sync.Mutex
+	reported := false
+	var wg sync.WaitGroup
+	for wk := 0; wk < runtime.NumCPU(); wk++ {
+		wg.Add(1)
+		go func() {
+			defer wg.Done()
+			for {
+				i := int(atomic.AddInt64(&next, 1))
+				if i >= len(hs) {
+					return
+				}
+				a := &hs[i]
+				for j := range hs {
+					b := &hs[j]
+					for _, m := range ms {
+						ra, rb := cfg.New(), cfg.New()
+						ia, ib := 0, 0
+						bad := ""
+						for _, first := range m {
+							if first {
+								if x := ra.Apply(a.ops[ia]); x.Fail != nil && bad == "" {
+									bad = "world 1: " + x.Fail.Msg
+								}
+								ia++
+							} else {
+								if x := rb.Apply(b.ops[ib]); x.Fail != nil && bad == "" {
+									bad = "world 2: " + x.Fail.Msg
+								}
+								ib++
+							}
+						}
+						atomic.AddInt64(&execs, 1)
+						if bad == "" && (string(ra.Key(nil)) != a.key || string(rb.Key(nil)) != b.key) {
+							bad = "a world ends in a different state than when its history runs alone"
+						}
+						if bad != "" {
+							mu.Lock()
+							if !reported {
+								reported = true
+								hl := []string{}
+								ia, ib = 0, 0
+								for _, first := range m {
+									if first {
+										hl = append(hl, "world1: "+cfg.OpString(a.ops[ia]))
+										ia++
+									} else {
+										hl = append(hl, "world2: "+cfg.OpString(b.ops[ib]))
+										ib++
+									}
+								}
+								rp.Violation(&runner.ReplayFile{Scenario: "c19-open-queries", Sig: "isolation:open-queries", Msg: bad, OpsText: hl, Kind: "c19"})
+							}
+							mu.Unlock()
+							return
+						}
+					}
+				}
+			}
+		}()
+	}
+	wg.Wait()
+	rp.States += len(hs) * len(hs)
+	rp.Trans += int(execs)
+	rp.Extra["open_queries"] = map[string]interface{}{"histories": len(hs), "of": total, "history_length": length, "merge_orders_per_pair": len(ms), "merged_executions": execs}
+	fmt.Printf("  open queries in two worlds: %d x %d histories (of %d with a batch-result query, length %d), %d merge orders each: %d merged executions\n", len(hs), len(hs), total, length, len(ms), execs)
+}
+
 // C19RaceBody is run by the -race build: the same history bodies, free-running on one goroutine per world.
 func C19RaceBody(tier string) int {
 	c1, c2 := c19Cfgs()
@@ -438,6 +560,7 @@ func init() {
 	Checks["C19"] = func(rp *runner.Report) int {
 		c19Interleave(rp)
 		c19SharedDump(rp)
+		c19OpenQueries(rp)
 		c19Race(rp)
 		c19Scan(rp)
 		rp.NoRuns = true
